@@ -504,7 +504,9 @@ impl ExprTypeChecker<'_, '_> {
             )));
         }
 
-        zip!(1.., args, &siggy.params).map(|(param_num, arg, param)| {
+        // params with a default (i.e. padding in instruction signatures) are never written at call sites
+        let written_params = siggy.params.iter().filter(|param| param.default.is_none());
+        zip!(1.., args, written_params).map(|(param_num, arg, param)| {
             let arg_ty = self.check_expr_as_value(arg, name.span)?;
             if let VarType::Typed(param_ty) = param.ty.value {
                 if arg_ty != param_ty {
